@@ -80,9 +80,26 @@ def case(draw, tier="quick"):
         size = max(0.01, draw(st.sampled_from(opts)))
     else:
         size = gen.size_c(draw, 1, 20000) / 100
+    vwap_cut = draw(st.integers(0, 7)) == 0
+    if vwap_cut:
+        # directed: fill-or-kill priced strictly between the best and the second level; the best level is small, the
+        # second could fill the rest but drags the volume-weighted price beyond the limit - the order is killed
+        t0 = max(8, min(nt - 9, mid))
+        s0 = gen.size_c(draw, 100, 500) / 100
+        x = round(s0 * draw(st.sampled_from([2, 3, 5])) + draw(st.sampled_from([0, 0.01])), 2)
+        lv = [[t0, s0], [t0 + 2 * sgn, round(x + draw(st.sampled_from([0, 0.01, 5.0])), 2)], [t0 + 5 * sgn, 40.0]]
+        if side == "BACK":
+            atb = lv
+        else:
+            atl = lv
+        tick = t0 + sgn
+        size = round(s0 + x, 2)
     op = {"op": "place", "r": ri, "side": side, "type": "LIMIT", "tick": tick, "size": size,
           "pers": draw(st.sampled_from(["LAPSE", "PERSIST"]))}
-    if draw(st.integers(0, 1)):
+    if vwap_cut:
+        op["tif"] = "FILL_OR_KILL"
+        op["min_fill"] = draw(st.sampled_from([None, size, round(s0 + 0.01, 2), round(size - 0.01, 2)]))
+    elif draw(st.integers(0, 1)):
         op["tif"] = "FILL_OR_KILL"
         c = draw(st.integers(0, 5))
         op["min_fill"] = [None, round(max(0.01, size / 2), 2), size, round(size + 0.01, 2), 0.01,
